@@ -292,6 +292,26 @@ def f(x: INT64[...]):
     return op.Clip(x, max=2), op.Clip(x, min=-1, max=2)
 ''', ["x:I:3"])
 
+P("negated_global_constant_and_attribute", '''
+K = 2
+H = 0.5
+
+@script()
+def f(x: FLOAT[...], n: INT64[...], alpha: float = 3.0):
+    a = x + (-K)
+    b = x * (-alpha)
+    c = n - (-K)
+    d = x / (-H) - (-K)
+    return a, b, c, d
+''', ["x:F:3 n:I:3"], [{}, {"alpha": -1.5}])
+
+P("optional_output_op_assigned_to_one_variable", '''
+@script()
+def f(x: FLOAT[...]):
+    y = op.Dropout(x)
+    return y + 1.0
+''', ["x:F:3"])
+
 P("same_named_subfunctions_in_two_domains", '''
 from onnxscript.values import Opset
 
@@ -889,6 +909,16 @@ def f(x: FLOAT[...], c: BOOL):
     else:
         t = x
     return x + gain
+'''),
+    ("unsupported_unary_plus", '''
+@script()
+def f(x: FLOAT[...]):
+    return +x
+'''),
+    ("unsupported_unary_invert", '''
+@script()
+def f(x: INT64[...]):
+    return ~x
 '''),
     ("unsupported_operator_xor", '''
 @script()
